@@ -17,7 +17,7 @@ THEOREMS = ["Mistune.escape_no_specials", "Mistune.safeEntity_no_specials", "Mis
             "Mistune.templates_ok", "Mistune.templates_none_opaque", "Mistune.evalPieces_safe", "Mistune.evalTmpl_safe", "Mistune.renderTok_safe", "Mistune.render_safe",
             "Mistune.evalTmpl_tagged", "Mistune.renderTok_tagged", "Mistune.render_tagged", "Mistune.templates_tagOk", "Mistune.templates_nodup", "Mistune.tagTable_wf", "Mistune.templateIntArgs_eq"]
 
-CANARIES = ['onq9=1//', '<xq9 yq9="1">', '"><xq9 onq9="1">', "'><xq9>", '" onq9="1', "</p><xq9>", "-->", "<!--", "<script>xq9</script>", "&lt;xq9&gt;", '\\"<xq9>', "`<xq9>`", "javascript:xq9"]
+CANARIES = ['onq9=1//', 'a"onq9="1', '<xq9 onq9=1//', 'R&D<xq9', '5" onq9="1', '<xq9 yq9="1">', '"><xq9 onq9="1">', "'><xq9>", '" onq9="1', "</p><xq9>", "-->", "<!--", "<script>xq9</script>", "&lt;xq9&gt;", '\\"<xq9>', "`<xq9>`", "javascript:xq9"]
 # free-text fields of tokens (data that comes verbatim from the input); alphabet-restricted fields (ruby raw/rt, heading id,
 # table align, admonition name, list start/depth, footnote index, checked) are refinements of the grammar and are not injected
 RAW_TYPES = {"text", "codespan", "inline_html", "block_code", "block_html", "block_error", "inline_math", "block_math", "include"}
@@ -185,13 +185,13 @@ DOC_TEMPLATES = ["{c}", "para {c} text", "# head {c}", "> quote {c}", "- item {c
                  "${c}$", "$$\n{c}\n$$", "[a({c})]", ">! {c}", "==a {c}==", "~~{c}~~", "- [ ] {c}", "http://a.b/{c}", "<a href=\"{c}\">", "<div {c}>\n</div>", "<!-- {c} -->",
                  ".. note:: {c}\n   :class: {c}\n\n   body {c}", "```{{note}} {c}\n:class: {c}\nbody {c}\n```", ".. image:: {c}\n   :alt: {c}\n   :width: 10{c}\n   :target: {c}\n   :align: {c}",
                  ".. figure:: p.png\n   :figclass: {c}\n   :figwidth: {c}\n   :align: {c}\n\n   cap {c}", ".. toc:: {c}\n   :max-level: {c}\n\n# h {c}", ".. unknown:: {c}\n\n   {c}", "```{{unknown}} {c}\n{c}\n```",
-                 ".. include:: {c}", ".. admonition:: {c}", "![[a](<{c}> \"t\nu\")](x.png)", "![[a]({c} 't\nu')](x.png)", "![![i](<{c}> \"t\nu\")](y.png)", "![*e* [a][r] `{c}`](x.png)\n\n[r]: <{c}> \"t\nu\"",
+                 ".. include:: {c}", ".. admonition:: {c}", "*[{c}]: long\n\nuse {c} here and ![a {c} disk](x)", "*[{c}]: t\n*[ab]: u\n\n*{c}* [{c}](/u) ab", "![[a](<{c}> \"t\nu\")](x.png)", "![[a]({c} 't\nu')](x.png)", "![![i](<{c}> \"t\nu\")](y.png)", "![*e* [a][r] `{c}`](x.png)\n\n[r]: <{c}> \"t\nu\"",
                  "![<b title=\"{c}\nx\">](x.png)", "[![i](s \"{c}\")](u \"t\nu\")", "# h [a](<{c}> \"t\nu\")\n\n.. toc::", "![a\n[b](<{c}> \"t\")\nc](x.png)",
                  # raw constructs in headings that a TOC lists (CDATA / processing instruction with an inner ">" and a lone quote)
                  "# <![CDATA[ > <img src=x {c} \" ]]>\n\n.. toc::", "# <?x > <img src=x {c} \" ?>\n\n```{{toc}}\n```", "x <!-- > <i {c} ' -->\n===\n\n.. toc::", "## a <b title=\">\"> <img {c}>\n\n```{{toc}}\n```",
                  ".. image:: p.png\n   :width: 1\" {c} data-x=\"%\n   :height: 5{c}%", "```{{figure}} p.png\n:width: 10\" {c} \"%\n:figwidth: 1{c}%\n```", "``` {c} {c}\nx\n```", "~~~ \"{c}\nx\n~~~"]
 
-SCHEMES = ["data:image/svg+xml;base64,AA", "data:text/html;base64,AA", "file:///usr/share/doc/x", "file:///etc/passwd", "javascript:void(0)", "javascript:void(1)", "javascript:alert(1)", "JaVaScRiPt:alert(1)", "vbscript:x", "file:///etc/passwd", "data:text/html,<x>", "data:image/png;base64,AA", " javascript:x", "java\tscript:x",
+SCHEMES = ["javascript:alert(1)//data:image/png;", "vbscript:x#data:image/gif;", "data:text/html,x#data:image/jpeg;base64", "file:///etc/passwd?data:image/webp;", "javascript:data:image/png;base64,AA", "data:image/svg+xml;base64,AA", "data:text/html;base64,AA", "file:///usr/share/doc/x", "file:///etc/passwd", "javascript:void(0)", "javascript:void(1)", "javascript:alert(1)", "JaVaScRiPt:alert(1)", "vbscript:x", "file:///etc/passwd", "data:text/html,<x>", "data:image/png;base64,AA", " javascript:x", "java\tscript:x",
            "javascript&colon;x", "javascript&#58;x", "javascript&#x3a;x", "&#106;avascript:x", "java&#x73;cript:x", "javascript&amp;colon;x", "javascript&amp;#58;x", "&amp;#106;avascript:x",
            "\x01javascript:x", "JAVASCRIPT&Colon;x", "javascript%3Ax", "data&colon;text/html,x", "Data:x", "FILE:x", "vbscript&NewLine;:x", "java&Tab;script:x", "javascript&amp;amp;colon;x"]
 URL_TEMPLATES = ["[x]({u})", "[x](<{u}>)", "![x]({u})", "[r]: {u}\n\n[r]", "[r]: <{u}>\n\n![r]", "<{u}>", ".. image:: {u}", ".. image:: p.png\n   :target: {u}", ".. figure:: {u}\n\n   c",
